@@ -285,6 +285,25 @@ def _events(args):
         shared = any(len({t.cds.guid for t in g.transcripts if t.is_coding}) < sum(1 for t in g.transcripts if t.is_coding)
                      for g in coll.genes)
         ev.append(["gff", off if chunk_mode else 0, model, rows, shared])
+        if not chunk_mode and not narrow and rnd.random() < 0.4:
+            # the rows asked of the members THEMSELVES, without naming any flag (chromosome coordinates are the documented
+            # default of every to_gff): the same rows as the collection's export
+            try:
+                members = sorted(list(coll.genes) + list(coll.feature_collections), key=lambda m: m.start)
+                direct = "##gff-version 3\n" + "".join(str(r) + "\n" for m in members for r in m.to_gff())
+                rows2, _f2 = lex(direct)
+                if sorted(map(str, rows2)) != sorted(map(str, rows)):
+                    ev.append(["gff", 0, model, rows2, shared])
+                # ... and of every transcript / feature interval on its own: its rows (type, start, end, strand, phase)
+                # are rows of the collection's export
+                have = {(r[3], r[4], r[5], r[7], r[8]) for r in rows}
+                for m in members:
+                    for ch in m.iter_children():
+                        rws, _f3 = lex("##gff-version 3\n" + "".join(str(r) + "\n" for r in ch.to_gff()))
+                        if any((r[3], r[4], r[5], r[7], r[8]) not in have for r in rws):
+                            raise AttributeError("rows of a member's own to_gff() are not rows of the collection's export")
+            except Exception as ex:
+                ev.append(["gff", 0, model, [[0, type(ex).__name__, "", "", 0, 0, "", "", "", [], False]], False])
         # escaping: gene and transcript rows decode back to the source qualifiers
         byid = {r[9][0][1][0]: r for r in rows if r[9] and r[9][0][0] == "ID"}
         for g in coll.genes:
